@@ -597,25 +597,32 @@ class SamplingMethod(DirectMethod):
             self.add_constraints_after(stage, opti)
             self.add_objective(stage, opti)
         if phase==2:
-
-            self.set_initial(stage, opti, stage._initial)
-            T_init = opti.debug.value(self.T, opti.initial())
-            t0_init = opti.debug.value(self.t0, opti.initial())
-
-            initial = HashOrderedDict()
-            # How to get initial value -> ask opti?
-            control_grid_init = self.time_grid(t0_init, T_init, self.N)
-            if self.time_grid.localize_t0:
-                for k in range(1, self.N):
-                    initial[self.t0_local[k]] = control_grid_init[k]
-                initial[self.t0_local[self.N]] = control_grid_init[self.N]
-            if self.time_grid.localize_T:
-                for k in range(not isinstance(self.time_grid, FreeGrid), self.N):
-                    initial[self.T_local[k]] = control_grid_init[k+1]-control_grid_init[k]
-
-            self.set_initial(stage, opti, initial)
-            self.set_initial(stage, opti, stage._initial) # Redo this: ocp.t is correct only now
+            self.set_initial_including_grid(stage, opti, stage._initial)
             self.set_parameter(stage, opti)
+
+    def set_initial_including_grid(self, stage, master, initial_user):
+        """Apply the user's guesses, and start the grid's own variables on the guessed horizon
+
+        Also used for guesses given after transcription: a new guess for T or t0 moves the starting grid along
+        """
+        opti = master.opti if hasattr(master, 'opti') else master
+        self.set_initial(stage, master, initial_user)
+        T_init = opti.debug.value(self.T, opti.initial())
+        t0_init = opti.debug.value(self.t0, opti.initial())
+
+        initial = HashOrderedDict()
+        # How to get initial value -> ask opti?
+        control_grid_init = self.time_grid(t0_init, T_init, self.N)
+        if self.time_grid.localize_t0:
+            for k in range(1, self.N):
+                initial[self.t0_local[k]] = control_grid_init[k]
+            initial[self.t0_local[self.N]] = control_grid_init[self.N]
+        if self.time_grid.localize_T:
+            for k in range(not isinstance(self.time_grid, FreeGrid), self.N):
+                initial[self.T_local[k]] = control_grid_init[k+1]-control_grid_init[k]
+
+        self.set_initial(stage, master, initial)
+        self.set_initial(stage, master, initial_user) # Redo this: ocp.t is correct only now
 
 
     def add_constraints_before(self, stage, opti):
